@@ -519,7 +519,7 @@ package fzf
 //@ ghost nlast int
 //@ ghost calls_pusher int -- counted by the verifier at every call through r.pusher
 //@ ghost @"buf = buf[i+1:]" ndel = ndel + 1
-//@ ghost @"if len(leftover) > 0 && r.pusher(leftover)" nlast = (len(leftover) > 0 ? 1 : 0)
+//@ ghost @"r.pusher(leftover)" nlast = (len(leftover) > 0 ? 1 : 0)
 //@ ensures calls_pusher == ndel + nlast
 // ... and a record handed over never contains the record delimiter (records are cut at every delimiter)
 //@ effect call r.pusher requires forall(k, 0, len(arg0), arg0[k] != delim) sets own(arg0)
